@@ -1,6 +1,6 @@
 (* C07: total-force measurement is the inverse of force application.
    Statements only; proofs in TotalForceProofs.v; all about the real-number instance (Rops, PI) of TotalForceModel.v.
-   Notation: RV = vectors, RM = 3x3 matrices, cell = optional orthorhombic periodic cell (minimum-image differences), RF = per-atom fields (nat -> vector), RG = groups, RC = components.
+   Notation: RV = vectors, RM = 3x3 matrices, RQ = quaternions, cell = optional orthorhombic periodic cell (minimum-image differences), RF = per-atom fields (nat -> vector), RG = groups, RC = components.
    gok mass g      : g is a group of atoms with non-zero total mass (a group whose force can be measured)
    disj g g'       : no atom of g is in g'
    last_ft outs    : the total force reported at the last step of a history (0 for the empty history)
@@ -116,17 +116,24 @@ Print Assumptions C07_inverse_eigenvector.
 (* rotated frames (the default fit of rmsd / eigenvector): the rotation matrix used at the step is an input of the model; whenever it is
    orthogonal (R R^T = 1), rotating the forces into the frame of the gradients (read_total_forces) inverts rotating the applied forces back;
    with atomPermutation copies as above *)
-Theorem C07_inverse_rmsd_rotated : forall (cell : option RV) (mass : nat -> R) (pos : RF) (ids : list nat) (refs : list RV) (extra : list (list RV)) (rotf : RF -> RM) (jdf : RF -> R) (fc : R),
+Theorem C07_inverse_rmsd_rotated : forall (cell : option RV) (mass : nat -> R) (pos : RF) (ids : list nat) (refs : list RV) (extra : list (list RV)) (rotf : RF -> RQ) (jdf : RF -> R) (fc : R),
   NoDup ids -> (forall r, In r (refs :: extra) -> length r = length ids) ->
-  (forall v : RV, mvmul Rops (rotf pos) (mtvmul Rops (rotf pos) v) = v) ->
-  rmsdrot_value Rops pos ids refs (rotf pos) (rmsdrot_best Rops pos ids refs extra (rotf pos)) <> 0 ->
+  qnorm2 Rops (rotf pos) = 1 ->
+  rmsdrot_value Rops pos ids refs (rotmat Rops (rotf pos)) (rmsdrot_best Rops pos ids refs extra (rotmat Rops (rotf pos))) <> 0 ->
   cvc_ft Rops PI cell mass pos (CRmsdRot ids refs extra rotf jdf) (cvc_apply Rops PI cell mass pos (CRmsdRot ids refs extra rotf jdf) fc) = fc.
 Proof. exact thm_inverse_rmsd_rotated. Qed.
 Print Assumptions C07_inverse_rmsd_rotated.
 
-Theorem C07_inverse_eigenvector_rotated : forall (cell : option RV) (mass : nat -> R) (pos : RF) (ids : list nat) (refs evec : list RV) (rotf : RF -> RM) (jdf : RF -> R) (fc : R),
+(* quaternion::rotation_matrix of a unit quaternion is orthogonal (R R^T = 1) and rotation::inverse().matrix() (conjugate quaternion) is its transpose *)
+Theorem C07_rotation_matrices : forall q : RQ, qnorm2 Rops q = 1 ->
+  (forall v : RV, mvmul Rops (rotmat Rops q) (mtvmul Rops (rotmat Rops q) v) = v) /\
+  (forall v : RV, mvmul Rops (rotmat Rops (qconj Rops q)) v = mtvmul Rops (rotmat Rops q) v).
+Proof. exact thm_rotation_matrices. Qed.
+Print Assumptions C07_rotation_matrices.
+
+Theorem C07_inverse_eigenvector_rotated : forall (cell : option RV) (mass : nat -> R) (pos : RF) (ids : list nat) (refs evec : list RV) (rotf : RF -> RQ) (jdf : RF -> R) (fc : R),
   NoDup ids -> length evec = length ids ->
-  (forall v : RV, mvmul Rops (rotf pos) (mtvmul Rops (rotf pos) v) = v) ->
+  qnorm2 Rops (rotf pos) = 1 ->
   norm2_sum Rops (eig_vec Rops evec) <> 0 ->
   cvc_ft Rops PI cell mass pos (CEigenvectorRot ids refs evec rotf jdf) (cvc_apply Rops PI cell mass pos (CEigenvectorRot ids refs evec rotf jdf) fc) = fc.
 Proof. exact thm_inverse_eigenvector_rotated. Qed.
@@ -357,8 +364,8 @@ Example C07_ex_eigenvector :
   NoDup [0%nat; 1%nat] /\ length ex_evec = length [0%nat; 1%nat] /\ norm2_sum Rops (eig_vec Rops ex_evec) <> 0.
 Proof. exact ex_eigenvector. Qed.
 Example C07_ex_rotated :
-  (forall v : RV, mvmul Rops ex_id (mtvmul Rops ex_id v) = v) /\
-  rmsdrot_value Rops ex_pos [0%nat; 1%nat] ex_refs ex_id ex_refs <> 0.
+  qnorm2 Rops ex_q = 1 /\
+  rmsdrot_value Rops ex_pos [0%nat; 1%nat] ex_refs (rotmat Rops ex_q) ex_refs <> 0.
 Proof. exact ex_rotated. Qed.
 (* a variable distance(0,1) - distance(2,3): inverse-correct at every geometry, coefficients +-1 *)
 Example C07_ex_variable : forall pos h sb sm kT,
